@@ -1,6 +1,6 @@
 (* Proofs for C19 (Model/Serde.v): round trip through both entry points, refusal of bad keys,
    agreement of the Context construction paths. *)
-From TeraV Require Import Model.Value Model.Format Model.Serde.
+From TeraV Require Import Model.Value Model.Format Model.Serde Proofs.FormatProofs.
 From Coq Require Import Permutation.
 
 (* ------------------------------------------------------------------ induction on types *)
@@ -572,4 +572,207 @@ Proof.
       assert (Hy' : ser (SStruct xs) = ROk (VMap (build_map ys))) by (cbn [ser]; rewrite Hys; reflexivity).
       pose proof (H _ Hin (SStruct xs) DInner (VMap (build_map ys)) (Hno' _ Hin) (Hnm' _ Hin) Hp Hy') as Hr.
       cbn [fst snd] in Hr. rewrite Hr. reflexivity.
+Qed.
+
+(* the statement in the form of the design: both entry points *)
+Theorem de_ser_roundtrip_ok : forall e t v x,
+  has_type v t -> no_none_like_under_option t = true -> names_ok t = true ->
+  ser v = ROk x -> de_entry Fixed e t x = ROk v.
+Proof. intros e t v x Hty Hno Hnm Hs. unfold de_entry. apply de_ser_roundtrip_strong; assumption. Qed.
+
+(* ------------------------------------------------------------------ serialisation succeeds *)
+
+Lemma map_res_total : forall {A B} (f : A -> res B) l,
+  Forall (fun a => exists b, f a = ROk b) l -> exists out, map_res f l = ROk out.
+Proof.
+  intros A B f l H. induction H as [|a l (b & Hb) _ (out & IH)]; cbn; [eauto|].
+  rewrite Hb, IH. cbn. eauto.
+Qed.
+
+Lemma find_variant_in : forall vs n kp, find_variant n vs = Some kp -> exists n', In (n', kp) vs.
+Proof.
+  induction vs as [|vr vs IH]; cbn; intros n kp H; [discriminate|].
+  destruct (str_eqb n (fst vr)).
+  - inversion H; subst. exists (fst vr). left. destruct vr; reflexivity.
+  - destruct (IH _ _ H) as (n' & Hin). eauto.
+Qed.
+
+Lemma key_ser_ok : forall kt k, key_ty_ok kt = true -> has_type k kt -> exists kk, ser_key k = ROk kk.
+Proof.
+  induction kt using ty_ind'; intros k Hok Hty; cbn in Hok; try discriminate; inversion Hty; subst; cbn; eauto.
+  match goal with Hf : find_variant _ _ = Some _ |- _ => destruct (find_variant_in _ _ _ Hf) as (n' & Hin) end.
+  rewrite forallb_forall in Hok. specialize (Hok _ Hin). cbn in Hok.
+  destruct k0; try discriminate. eauto.
+Qed.
+
+Theorem ser_total : forall t v, keys_ok t = true -> has_type v t -> exists x, ser v = ROk x.
+Proof.
+  induction t using ty_ind'; intros v Hk Hty; inversion Hty; subst; cbn [ser]; eauto.
+  - destruct (map_res_total ser l) as (out & ->); [|cbn; eauto].
+    rewrite Forall_forall in *. intros a Ha. apply IHt; [eapply ty_all_seq; eauto|auto].
+  - destruct (map_res_total ser l) as (out & ->); [|cbn; eauto].
+    pose proof (ty_all_tuple _ _ Hk) as Hk'. clear Hty Hk.
+    match goal with Hl : Forall2 has_type l ts |- _ => induction Hl as [|a t0 l ts Hat _ IH] end; [constructor|].
+    inversion H; subst. inversion Hk'; subst. constructor; auto.
+  - pose proof (ty_all_here _ _ Hk) as Hkey. cbn in Hkey. destruct (ty_all_map _ _ _ Hk) as [Hk1 Hk2].
+    match goal with |- exists x, res_bind (map_res ?F m) _ = _ => destruct (map_res_total F m) as (out & ->) end; [|cbn; eauto].
+    match goal with Hm : Forall _ m |- _ => eapply Forall_impl; [|exact Hm] end.
+    intros [k x] [Hkt Hvt]. cbn in *.
+    destruct (key_ser_ok _ _ Hkey Hkt) as (kk & ->). destruct (IHt2 _ Hk2 Hvt) as (y & ->). cbn. eauto.
+  - match goal with |- exists x, res_bind (map_res ?F xs) _ = _ => destruct (map_res_total F xs) as (out & ->) end; [|cbn; eauto].
+    pose proof (ty_all_struct _ _ Hk) as Hk'. clear Hty Hk.
+    match goal with Hl : Forall2 _ xs fs |- _ => induction Hl as [|a f xs fs [Hn Hat] _ IH] end; [constructor|].
+    inversion H; subst. inversion Hk'; subst. constructor; [|auto].
+    match goal with Hr : forall v, _ -> has_type v (snd f) -> _ |- _ => destruct (Hr (snd a)) as (y & ->); auto end.
+    cbn. eauto.
+  - destruct k; [eauto| | |];
+      (match goal with Hf : find_variant n vs = Some _ |- _ => destruct (find_variant_in _ _ _ Hf) as (n' & Hin) end;
+       pose proof (ty_all_enum _ _ Hk) as Hk'; rewrite Forall_forall in H, Hk';
+       match goal with Hp : has_type p pt |- _ => destruct (H _ Hin p (Hk' _ Hin) Hp) as (y & ->) end; cbn; eauto).
+Qed.
+
+(* C19, first sentence, in the design's form *)
+Theorem de_ser_roundtrip : forall e t v,
+  has_type v t -> no_none_like_under_option t = true -> names_ok t = true -> keys_ok t = true ->
+  res_bind (ser v) (de_entry Fixed e t) = ROk v.
+Proof.
+  intros e t v Hty Hno Hnm Hk. destruct (ser_total t v Hk Hty) as (x & Hx). rewrite Hx. cbn.
+  eapply de_ser_roundtrip_ok; eauto.
+Qed.
+
+(* ------------------------------------------------------------------ bad keys *)
+
+Theorem bad_key_refused : forall m k x,
+  In (k, x) m -> admissible_key k = false -> exists e, ser (SMap m) = RErr e.
+Proof.
+  intros m k x Hin Hbad. cbn [ser].
+  assert (Hk : exists e, ser_key k = RErr e).
+  { destruct (ser_key k) eqn:E; [|eauto]. exfalso.
+    assert (admissible_key k = true) by (apply ser_key_admissible; eauto). congruence. }
+  destruct Hk as (e & Hk).
+  match goal with |- exists e0, res_bind (map_res ?F m) _ = _ =>
+    destruct (map_res_in_err F m (k, x) e Hin) as (e' & ->) end; [|cbn; eauto].
+  cbn. rewrite Hk. reflexivity.
+Qed.
+
+Lemma bad_key_type_inadmissible : forall kt k, key_ty_bad kt = true -> has_type k kt -> admissible_key k = false.
+Proof.
+  induction kt using ty_ind'; intros k Hb Hty; cbn in Hb; try discriminate; inversion Hty; subst; cbn; try reflexivity; auto.
+  match goal with Hf : find_variant _ _ = Some _ |- _ => destruct (find_variant_in _ _ _ Hf) as (n' & Hin) end.
+  rewrite forallb_forall in Hb. specialize (Hb _ Hin). cbn in Hb.
+  destruct k0; [discriminate|reflexivity|reflexivity|reflexivity].
+Qed.
+
+(* a non-empty map whose key type is a float, unit, sequence, tuple, map, struct (or a wrapper
+   of one, or an enum without unit variants) is refused *)
+Theorem bad_key_type_refused : forall m kt vt,
+  has_type (SMap m) (TMap kt vt) -> key_ty_bad kt = true -> m <> [] -> exists e, ser (SMap m) = RErr e.
+Proof.
+  intros m kt vt Hty Hb Hne. destruct m as [|[k x] m]; [congruence|].
+  inversion Hty; subst. inversion H2 as [|e l [Hk _] _]; subst.
+  eapply (bad_key_refused _ k x); [left; reflexivity|].
+  eapply bad_key_type_inadmissible; eauto.
+Qed.
+
+(* never an altered value: whatever ser returns for a map with an inadmissible key, it is not Ok *)
+Corollary bad_key_never_ok : forall m k x y,
+  In (k, x) m -> admissible_key k = false -> ser (SMap m) <> ROk y.
+Proof. intros m k x y Hin Hb H. destruct (bad_key_refused m k x Hin Hb) as (e & He). congruence. Qed.
+
+(* ------------------------------------------------------------------ Context paths *)
+
+Fixpoint insert_all (xs : list (str * sval)) (c : ctx) : res ctx :=
+  match xs with
+  | [] => ROk c
+  | f :: t => res_bind (insert (fst f) (snd f) c) (insert_all t)
+  end.
+Definition insert_value_all (es : list (str * value)) (c : ctx) : ctx :=
+  fold_left (fun acc e => insert_value (fst e) (snd e) acc) es c.
+
+Definition ser_fields (xs : list (str * sval)) : res (list (str * value)) :=
+  map_res (fun f : str * sval => res_bind (ser (snd f)) (fun x => ROk (fst f, x))) xs.
+
+Lemma ser_fields_keys : forall xs es,
+  ser_fields xs = ROk es ->
+  map_res (fun e : str * sval => res_bind (ser (snd e)) (fun x => ROk (KStr (fst e) false, x))) xs
+  = ROk (map (fun e : str * value => (mk_field_key (fst e), snd e)) es)
+  /\ map fst es = map fst xs.
+Proof.
+  unfold ser_fields. induction xs as [|f xs IH]; cbn; intros es H.
+  - inversion H; subst. split; reflexivity.
+  - apply res_bind_ok in H. destruct H as (b & Hb & H). apply res_bind_ok in H. destruct H as (bs & Hbs & H).
+    inversion H; subst. apply res_bind_ok in Hb. destruct Hb as (y & Hy & Hb). inversion Hb; subst.
+    destruct (IH _ Hbs) as [IH1 IH2]. rewrite Hy. cbn. rewrite IH1. cbn. split; [reflexivity|]. f_equal. exact IH2.
+Qed.
+
+Lemma ctx_of_field_entries : forall es c,
+  ctx_of_entries (map (fun e : str * value => (mk_field_key (fst e), snd e)) es) c = insert_value_all es c.
+Proof.
+  unfold ctx_of_entries, insert_value_all. induction es as [|e es IH]; intro c; cbn; [reflexivity|]. apply IH.
+Qed.
+
+Lemma insert_all_fields : forall xs es c, ser_fields xs = ROk es -> insert_all xs c = ROk (insert_value_all es c).
+Proof.
+  unfold ser_fields. induction xs as [|f xs IH]; cbn; intros es c H.
+  - inversion H; subst. reflexivity.
+  - apply res_bind_ok in H. destruct H as (b & Hb & H). apply res_bind_ok in H. destruct H as (bs & Hbs & H).
+    inversion H; subst. apply res_bind_ok in Hb. destruct Hb as (y & Hy & Hb). inversion Hb; subst.
+    unfold insert. rewrite Hy. cbn. apply IH. exact Hbs.
+Qed.
+
+(* from_serialize of a struct = insert of each field = insert_value of each converted field *)
+Theorem context_paths_agree : forall xs es,
+  str_nodupb (map fst xs) = true -> ser_fields xs = ROk es ->
+  from_serialize (SStruct xs) = ROk (insert_value_all es [])
+  /\ insert_all xs [] = ROk (insert_value_all es []).
+Proof.
+  intros xs es Hnd Hs. split; [|apply insert_all_fields; exact Hs].
+  destruct (ser_fields_keys xs es Hs) as [Hk Hn].
+  unfold from_serialize. cbn [ser]. rewrite Hk. cbn.
+  rewrite build_map_distinct.
+  - rewrite ctx_of_field_entries. reflexivity.
+  - eapply names_distinct_keys; [|exact Hnd]. rewrite <- Hn. rewrite !map_map. reflexivity.
+Qed.
+
+(* a value that is not written as a map is refused by from_serialize, not altered *)
+Lemma from_serialize_needs_map : forall v x,
+  ser v = ROk x -> (forall m, x <> VMap m) -> from_serialize v = RErr ErrMsg.
+Proof. intros v x Hs Hm. unfold from_serialize. rewrite Hs. cbn. destruct x; try reflexivity. exfalso. eapply Hm; reflexivity. Qed.
+
+(* ------------------------------------------------------------------ the pinned code (before D7, D14) *)
+
+(* D7: by reference, Some(3u8) is an error *)
+Lemma D7_pinned_byref_refuted :
+  exists t v x, has_type v t /\ no_none_like_under_option t = true /\ names_ok t = true /\ keys_ok t = true /\
+                ser v = ROk x /\ de_entry Pinned Owned t x = ROk v /\ de_entry Pinned ByRef t x = RErr ErrMsg.
+Proof.
+  exists (TOption (TInt false 8)), (SSome (SInt false 8 3)), (VInt U64 3).
+  repeat split; try reflexivity. constructor. constructor; reflexivity.
+Qed.
+
+(* D7: by reference, every enum shape is an error *)
+Lemma D7_pinned_byref_enum_refuted : forall n,
+  de_entry Pinned ByRef (TEnum [VUnit n]) (VStr n false) = RErr ErrMsg
+  /\ de_entry Fixed ByRef (TEnum [VUnit n]) (VStr n false) = ROk (SVariant n VKUnit SUnit).
+Proof. intro n. split; [reflexivity|]. cbn. rewrite str_eqb_refl. reflexivity. Qed.
+
+(* D14: a newtype struct around [[]] comes back ALTERED through either entry point *)
+Lemma D14_pinned_newtype_refuted :
+  exists t v x w, has_type v t /\ no_none_like_under_option t = true /\ names_ok t = true /\ keys_ok t = true /\
+                  ser v = ROk x /\ de_entry Pinned Owned t x = ROk w /\ de_entry Pinned ByRef t x = ROk w /\ w <> v.
+Proof.
+  exists (TNewtype (TSeq (TSeq (TInt false 8)))), (SNewtype (SSeq [SSeq []])), (VArr [VArr []]), (SNewtype (SSeq [])).
+  repeat split; try reflexivity.
+  - repeat constructor.
+  - discriminate.
+Qed.
+
+(* ------------------------------------------------------------------ integers print exactly *)
+
+Theorem print_integers_exact : forall ffmt sdbg blossy sg bits z,
+  (exists x, ser (SInt sg bits z) = ROk x /\ format ffmt sdbg blossy x = dec z)
+  /\ parse_dec (dec z) = Some z.
+Proof.
+  intros. split; [|apply parse_dec_dec].
+  exists (VInt (int_rep sg bits) z). split; reflexivity.
 Qed.
